@@ -2688,6 +2688,16 @@ impl SctpInner {
         }
         let tsn = buf.get_u32();
 
+        // DATA that overtakes (or survives the loss of) the COOKIE ACK arrives while
+        // we are still waiting for it. RFC 4960 §5.1 allows discarding it: the peer
+        // retransmits, and no message can reach a channel before its Open.
+        if matches!(
+            &*self.t1_chunk.lock(),
+            Some((CT_INIT | CT_COOKIE_ECHO, _, _))
+        ) {
+            return Ok(());
+        }
+
         // Deduplication and Ordering Check
         let cumulative_ack = self.cumulative_tsn_ack.load(Ordering::Relaxed);
         let diff = tsn.wrapping_sub(cumulative_ack);
